@@ -67,7 +67,8 @@ def probe_locations(code, rng, k=12):
     Lx, Ly, Lz = code.size
     locs = [(-1, 0, 0), (0, -1, 0), (0, 0, -1), (2 * Lx, 0, 0), (0, 2 * Ly, 0), (0, 0, 2 * Lz),
             (2 * Lx + 1, 0, 0), (1, 1, 1), (2 * Lx - 1, 2 * Ly - 1, 2 * Lz - 1), (0, 0, 0),
-            (1, 2 * Ly, 0), (2 * Lx, 1, 0), (0, 0, 2 * Lz + 1), (-1, -1, 0), (-2, 0, 1)]
+            (1, 2 * Ly, 0), (2 * Lx, 1, 0), (0, 0, 2 * Lz + 1), (-1, -1, 0), (-2, 0, 1),
+            (1, 0), (1, 0, 0, 0), (0,)]
     for _ in range(k):
         locs.append(tuple(int(v) for v in rng.integers(-3, 2 * max(code.size) + 4, 3)))
     return locs
@@ -122,7 +123,7 @@ def streams_for(ctx, cls, supported, salt):
                        tag=tag + ':probe')
         names = ['XZZX', 'XY', 'xzzx']
         axes = ['-', 'x', 'y', 'z', 'w']
-        for loc in qs + ss[:2] + probes[:6]:
+        for loc in qs + ss[:2] + probes[:6] + [(1, 0), (1, 0, 0, 0)]:
             for name in names:
                 for ax in axes:
                     if name != 'XZZX' and loc not in qs[:4]:
